@@ -147,6 +147,47 @@ func TestVerifC19(t *testing.T) {
 			t.Fatal(err)
 		}
 		seed := vt.Seed()*1000 + int64(ci)
+		// the vote flag follows the simple-vote definition (vote.go): a *legacy* transaction whose one instruction calls the
+		// Vote program.  Every third vote transaction of the model is archived as a v0 message (no lookups) calling the Vote
+		// program: it is built with the vote program but is, by that definition, not a vote (its model flag is cleared
+		// below, after the fixture has been built from the original flags).
+		for ei := range a.Arch {
+			for bi := range a.Arch[ei].Blocks {
+				for ni := range a.Arch[ei].Blocks[bi].Entries {
+					for ti := range a.Arch[ei].Blocks[bi].Entries[ni].Txs {
+						tx := &a.Arch[ei].Blocks[bi].Entries[ni].Txs[ti]
+						if tx.Vote && tx.Sig%3 == 0 {
+							tx.V0 = true
+						}
+					}
+				}
+			}
+		}
+		// every epoch but the last gets a block in its very last slot (one transaction of account 1): ranges can then start
+		// or end exactly on an epoch's last slot
+		maxSig := 0
+		for _, ep := range a.Arch {
+			for _, b := range ep.Blocks {
+				for _, en := range b.Entries {
+					for _, tx := range en.Txs {
+						if tx.Sig > maxSig {
+							maxSig = tx.Sig
+						}
+					}
+				}
+			}
+		}
+		var edgeSlots []uint64
+		for ei := 0; ei+1 < len(a.Arch); ei++ {
+			ep := &a.Arch[ei]
+			last := (ep.Epoch+1)*432000 - 1
+			if lb := ep.Blocks[len(ep.Blocks)-1]; lb.Slot < last {
+				maxSig++
+				ep.Blocks = append(ep.Blocks, aBlock{Slot: last, Parent: lb.Slot, Blocktime: lb.Blocktime + 400, Height: -1,
+					Entries: []aEntry{{Txs: []aTx{{Sig: maxSig, Accts: []int{1, 2}, Loaded: []int{}, Dframes: 1, Mframes: 1}}}}})
+				edgeSlots = append(edgeSlots, last)
+			}
+		}
 		sigID := map[solana.Signature]int{}
 		truth := map[int]*fixture.TxTruth{}
 		var eps []*loaded
@@ -167,6 +208,17 @@ func TestVerifC19(t *testing.T) {
 				}
 				for _, x := range tt.Spec.Loaded {
 					loadedOnly[x] = true
+				}
+			}
+		}
+		for ei := range a.Arch {
+			for bi := range a.Arch[ei].Blocks {
+				for ni := range a.Arch[ei].Blocks[bi].Entries {
+					for ti := range a.Arch[ei].Blocks[bi].Entries[ni].Txs {
+						if tx := &a.Arch[ei].Blocks[bi].Entries[ni].Txs[ti]; tx.V0 {
+							tx.Vote = false
+						}
+					}
 				}
 			}
 		}
@@ -194,13 +246,22 @@ func TestVerifC19(t *testing.T) {
 		firstSlot := a.Arch[0].Blocks[0].Slot
 		lastEp := a.Arch[len(a.Arch)-1]
 		lastSlot := lastEp.Blocks[len(lastEp.Blocks)-1].Slot
+		if len(a.Arch) >= 2 && len(edgeSlots) > 0 {
+			firstSlot = edgeSlots[len(edgeSlots)-1] - 20 // keep the cross-epoch range short: it starts shortly before the boundary
+		}
 		for _, ep := range a.Arch {
 			b := ep.Blocks
+			if n := len(b); n > 1 && b[n-1].Slot == (ep.Epoch+1)*432000-1 && b[n-2].Slot < b[n-1].Slot-1000 {
+				b = b[:n-1] // (the block added in the epoch's last slot has its own ranges below; a range up to it spans 432 000 slots)
+			}
 			ranges = append(ranges, [2]uint64{b[0].Slot, b[len(b)-1].Slot}, [2]uint64{b[0].Slot + 1, b[len(b)-1].Slot + 2}, [2]uint64{b[len(b)/2].Slot, b[len(b)/2].Slot})
 			if b[0].Slot > 0 {
 				ranges = append(ranges, [2]uint64{b[0].Slot - 1, b[len(b)-1].Slot - 1})
 			}
 			ranges = append(ranges, [2]uint64{b[len(b)-1].Slot + 5, b[len(b)-1].Slot + 9})
+		}
+		for _, es := range edgeSlots {
+			ranges = append(ranges, [2]uint64{es, es}, [2]uint64{es, es + 6}, [2]uint64{es - 3, es}, [2]uint64{es, lastSlot})
 		}
 		if len(a.Arch) >= 2 && a.Arch[1].Epoch == a.Arch[0].Epoch+1 {
 			ranges = append(ranges, [2]uint64{firstSlot, lastSlot}) // across the boundary of two consecutive epochs
